@@ -2015,11 +2015,11 @@ Definition walker_c_decl_base : list tnode :=
        NAct KRaw "#include <stdbool.h>";
        NAct KRaw "#include <stdint.h>"])]
     [NAct KRaw "static_assert( NUNAVUT_SUPPORT_LANGUAGE_OPTIONS_KEY_SET == {{ options.keys() | sort(case_sensitive=true) | join("","") | to_static_assertion_value }},";
-     NAct KRaw """{{ T.source_file_path.as_posix() if nunavut.embed_auditing_info else T.source_file_path.name }} is trying to use a serialization library that was compiled with """;
+     NAct KRaw """{{ (T.source_file_path.as_posix() | replace(""\\"", ""\\\\"") | replace('""', '\\""')) if nunavut.embed_auditing_info else T.source_file_path.name }} is trying to use a serialization library that was compiled with """;
      NAct KRaw """different language options. This is dangerous and therefore not allowed."" );";
      NFor "key, value in options.items()"
       [NAct KRaw "static_assert( {{ ""NUNAVUT_SUPPORT_LANGUAGE_OPTION_{}"".format(key) | ln.c.macrofy }} == {{ value | to_static_assertion_value }},";
-       NAct KRaw """{{ T.source_file_path.as_posix() if nunavut.embed_auditing_info else T.source_file_path.name }} is trying to use a serialization library that was compiled with """;
+       NAct KRaw """{{ (T.source_file_path.as_posix() | replace(""\\"", ""\\\\"") | replace('""', '\\""')) if nunavut.embed_auditing_info else T.source_file_path.name }} is trying to use a serialization library that was compiled with """;
        NAct KRaw """different language options. This is dangerous and therefore not allowed."" );"]];
    NAct KRaw "#ifdef __cplusplus";
    NAct KRaw "extern ""C"" {";
@@ -2098,13 +2098,13 @@ Definition walker_cpp_decl_base : list tnode :=
          NIf [
            ((CAtom "loop.first"),
             [NAct KRaw "static_assert( nunavut::support::language_options_key_set == {{ options.keys() | sort(case_sensitive=true) | join("","") | ln.c.to_static_assertion_value }},";
-             NAct KRaw """{{ T.source_file_path.as_posix() if nunavut.embed_auditing_info else T.source_file_path.name }} """;
+             NAct KRaw """{{ (T.source_file_path.as_posix() | replace(""\\"", ""\\\\"") | replace('""', '\\""')) if nunavut.embed_auditing_info else T.source_file_path.name }} """;
              NAct KRaw """is trying to use a serialization library that was compiled with """;
              NAct KRaw """different language options. This is dangerous and therefore not """;
              NAct KRaw """allowed."" );"])]
           [];
          NAct KRaw "static_assert( nunavut::support::options::{{ key | id }} == {{ value | ln.c.to_static_assertion_value }},";
-         NAct KRaw """{{ T.source_file_path.as_posix() if nunavut.embed_auditing_info else T.source_file_path.name }} """;
+         NAct KRaw """{{ (T.source_file_path.as_posix() | replace(""\\"", ""\\\\"") | replace('""', '\\""')) if nunavut.embed_auditing_info else T.source_file_path.name }} """;
          NAct KRaw """is trying to use a serialization library that was compiled with """;
          NAct KRaw """different language options. This is dangerous and therefore not """;
          NAct KRaw """allowed."" );"]])]
@@ -2629,17 +2629,21 @@ Definition walker_py_decl_base : list tnode :=
         [];
        NIf [
          ((CAnd (CAtom "t.element_type is UnsignedIntegerType") (CAtom "t.element_type.bit_length <= 8")),
-          [NAct KRaw "if isinstance({{ src }}, (bytes, bytearray)) and len({{ src }}) {{ cmp }} {{ t.capacity }}:";
+          [NAct KRaw "if isinstance({{ src }}, (bytes, bytearray)):";
+           NAct KRaw "if not len({{ src }}) {{ cmp }} {{ t.capacity }}:";
+           NAct KRaw "raise ValueError(f'{{ f.name }}: invalid array length: not {len({{ src }})} {{ cmp }} {{ t.capacity }}')";
            NAct KRaw "_a_ = _np_.frombuffer({{ src }}, {{ t.element_type|numpy_scalar_type }})";
            NAct KRaw "el"])]
         [];
        NAct KRaw "if isinstance({{ src }}, _np_.ndarray) and {{ src }}.dtype == {{ t.element_type|numpy_scalar_type }} and {{ src }}.ndim == 1 and {{ src }}.size {{ cmp }} {{ t.capacity }}:";
        NAct KRaw "_a_ = {{ src }}";
        NAct KRaw "else:";
+       NAct KRaw "if isinstance({{ src }}, (bytes, bytearray, str)):";
+       NAct KRaw "raise ValueError(f'{{ f.name }}: expected an array, got {type({{ src }}).__name__}')";
        NIf [
          ((CAtom "t.element_type is IntegerType"),
           [NAct KRaw "_s_ = _np_.asarray({{ src }})";
-           NAct KRaw "if _s_.size and _s_.dtype.kind in 'iufO':";
+           NAct KRaw "if _s_.size and (_s_.dtype.kind in 'iuO' or (_s_.dtype.kind == 'f' and isinstance({{ src }}, _np_.ndarray))):";
            NAct KRaw "_lo_, _hi_ = _s_.min(), _s_.max()";
            NAct KRaw "if _s_.dtype.kind != 'O':";
            NAct KRaw "_lo_, _hi_ = _lo_.item(), _hi_.item()";
